@@ -208,7 +208,11 @@ func RunLoad(L *Layout, fs *zsimrt.FS, stubFault string, render bool) (out *Outc
 	ctx := context.Background()
 	calls := 0
 	stub := stubLoader{L: L, fs: fs, fault: stubFault, calls: &calls}
-	withStub := func(lo *loader.Options) { lo.ResourceLoaders = append(lo.ResourceLoaders, stub) }
+	withStub := func(lo *loader.Options) {
+		if !L.Opts.NoStubLoader || len(L.Remote) > 0 {
+			lo.ResourceLoaders = append(lo.ResourceLoaders, stub)
+		}
+	}
 	var proj *types.Project
 	var err error
 	switch L.Entry {
